@@ -323,16 +323,16 @@ def gen_cases(ctx, scale=1.0):
     rng = ctx.rng
     cases = []
     trees = small_trees()
-    B = 200
+    B = 1 if ctx.quick else 20
     if ctx.quick:
-        n = int(4000 * scale)
+        n = int(12000 * scale)
         pairs = [[copy.deepcopy(rng.choice(trees)), copy.deepcopy(rng.choice(trees))] for _ in range(n)]
     else:
         pairs = [[a, b] for a in trees for b in trees]
         ctx.exhaustive_spaces.append("all %d^2 ordered pairs of trees of depth <= 2 over the names a, b with leaves file(2 contents at the top level)/symlink/empty dir/dir" % len(trees))
     for i in range(0, len(pairs), B):
         cases.append(dict(pairs=pairs[i:i + B]))
-    nr = int((600 if ctx.quick else 20000) * scale)
+    nr = int((3000 if ctx.quick else 20000) * scale)
     rp = []
     for i in range(nr):
         a = rand_tree(rng, rng.choice([1, 2, 3, 4]), rng.choice([2, 3, 5]))
@@ -340,8 +340,8 @@ def gen_cases(ctx, scale=1.0):
         if rng.random() < 0.5:
             a, b = b, a
         rp.append([shuffled(rng, a), shuffled(rng, b)])
-    for i in range(0, len(rp), 50):
-        cases.append(dict(pairs=rp[i:i + 50]))
+    for i in range(0, len(rp), B):
+        cases.append(dict(pairs=rp[i:i + B]))
     return cases
 
 
